@@ -79,11 +79,14 @@ Definition objs_agree (model : list object) (seen : list obs) : bool :=
 Definition strip_init (nd : node) : node :=
   {| cls := cls nd; fields := fields nd; pre := pre nd; init := []; task := task nd; sealed := sealed nd |}.
 
-Definition case_t := (heap * nat * option nat * answer)%type.
-Definition Case (h : heap) (root : nat) (first : option nat) (a : answer) : case_t := (h, root, first, a).
+(* once: what a directed probe says about the tree under test - the loader executes each lightweight task
+   once (fixes/C13-1.diff) or every entry of the init-task list                                 *)
+Definition case_t := (heap * nat * option nat * bool * answer)%type.
+Definition Case (h : heap) (root : nat) (first : option nat) (once : bool) (a : answer) : case_t :=
+  (h, root, first, once, a).
 
 Definition check_instance_gen (pf : bool) (c : case_t) : bool :=
-  let '(h, root, first, a) := c in
+  let '(h, root, first, _, a) := c in
   let hA := map strip_init h in
   match first with
   | None =>
@@ -109,8 +112,8 @@ Definition check_instance_gen (pf : bool) (c : case_t) : bool :=
 Definition check_instance : case_t -> bool := check_instance_gen false.
 
 Definition check_params (c : case_t) : bool :=
-  let '(h, root, first, a) := c in
-  match load h root with
+  let '(h, root, first, once, a) := c in
+  match load_gen once h root with
   | Some r => list_eqb call_eqb (a_logB a) (r_log r)
               && objs_agree (r_objects r) (a_objsB a)
               && list_eqb Nat.eqb (a_orderB a) (map o_id (r_objects r))
@@ -118,7 +121,7 @@ Definition check_params (c : case_t) : bool :=
   end.
 
 (* the hypothesis of C13_wired_like_graph / C13_post_init_once_after_fields holds on the case *)
-Definition check_hyps (c : case_t) : bool := let '(h, _, _, _) := c in fields_nodupb h.
+Definition check_hyps (c : case_t) : bool := let '(h, _, _, _, _) := c in fields_nodupb h.
 
 (* C13 *)
 Definition check_case (c : case_t) : bool := check_hyps c && check_instance c && check_params c.
